@@ -100,7 +100,7 @@ static void flush_trace(void)
 }
 
 /* ------------------------------------------------------------------ scripted transport */
-enum evk { EV_RX, EV_ERR, EV_BLOCK, EV_INTR, EV_CLOSED, EV_DT };
+enum evk { EV_RX, EV_ERR, EV_BLOCK, EV_INTR, EV_CLOSED, EV_DT, EV_HANG };
 struct ev {
 	enum evk k;
 	unsigned char *data;
@@ -126,6 +126,9 @@ static pthread_mutex_t mu = PTHREAD_MUTEX_INITIALIZER;
 static pthread_cond_t cv_parked = PTHREAD_COND_INITIALIZER;
 static pthread_cond_t cv_resume = PTHREAD_COND_INITIALIZER;
 static bool parked;       /* the FSM thread has seen the end of the tape (stop request) */
+static bool hanging;
+static volatile bool stop_called;
+static volatile int after_stop;
 static bool threaded;     /* a run through rtr_start is active */
 static bool direct_eof;   /* in direct (non-threaded) runs an empty tape answers TR_ERROR once */
 
@@ -434,6 +437,31 @@ static int m_recv(const void *s, void *buf, const size_t len, const time_t timeo
 			tape_head++;
 			tracef("R %zu %lld -> -4", len, (long long)timeout);
 			return TR_CLOSED;
+		case EV_HANG:
+			/* the cache goes silent and the script ends here: the receive call blocks.  The run is handed back to the
+			 * main thread WITH THE STATE MACHINE THREAD ALIVE inside recv, so that a following `run stop` exercises
+			 * the real rtr_stop on a running thread (state change, pthread_cancel at this cancellation point, join,
+			 * purge).  For the model this is the end of the script. */
+			if (!threaded) {
+				tape_head = tape_tail;
+				continue;
+			}
+			tracef("R %zu %lld -> eof", len, (long long)timeout);
+			tape_head = tape_tail;
+			sock.state = RTR_SHUTDOWN;                 /* as at the end of a script: the stop request has arrived */
+			pthread_mutex_lock(&mu);
+			hanging = true;
+			parked = true;
+			pthread_cond_signal(&cv_parked);
+			pthread_mutex_unlock(&mu);
+			for (int spins = 0;; spins++) {
+				struct timespec ts = {0, 20 * 1000 * 1000};
+
+				nanosleep(&ts, NULL);              /* cancellation point */
+				if (stop_called && ++after_stop > 10)
+					return TR_ERROR;           /* cancellation is disabled at this call site: fail the call, the thread unwinds */
+				(void)spins;
+			}
 		}
 	}
 }
@@ -567,6 +595,7 @@ static void show_sock(void)
 	       (long long)sock.last_update, sock.is_resetting, sock.has_received_pdus, sock.refresh_interval,
 	       sock.retry_interval, sock.expire_interval, fake_now);
 }
+
 
 static void wait_parked(void)
 {
@@ -738,6 +767,8 @@ int main(void)
 					e.k = EV_INTR;
 				} else if (!strcmp(w[i], "closed")) {
 					e.k = EV_CLOSED;
+				} else if (!strcmp(w[i], "hang")) {
+					e.k = EV_HANG;
 				} else if (!strncmp(w[i], "dt:", 3) && parse_ll(w[i] + 3, &e.n) && e.n >= 0) {
 					e.k = EV_DT;
 				} else {
@@ -811,13 +842,20 @@ int main(void)
 				puts("bad-op");
 				continue;
 			}
+			hanging = false;
 			wait_parked();
-			pthread_join(sock.thread_id, NULL);
-			h_joined = 1;
+			if (!hanging) {
+				pthread_join(sock.thread_id, NULL);
+				h_joined = 1;
+			}
 			flush_trace();
 			puts("end");
 		} else if (!strcmp(w[0], "run") && n == 2 && !strcmp(w[1], "stop") && threaded) {
+			after_stop = 0;
+			stop_called = true;
 			rtr_stop(&sock);
+			stop_called = false;
+			hanging = false;
 			threaded = false;
 			parked = false;
 			tape_head = tape_tail;
